@@ -42,10 +42,11 @@ type v5Scn struct {
 	gap       time.Duration
 	kind      string // undecided match-read empty-fb-read nonterm-undecided
 	delay     time.Duration // nonterm-undecided: how long the non-terminal handler of the first route takes
+	preWait   time.Duration // time between WrapConnection and the start of the compiled route (a connection that waited)
 }
 
 func (s v5Scn) String() string {
-	return fmt.Sprintf("%s/%s/%s timeout=%v phase=%.2f gap=%v delay=%v", s.transport, s.kind, s.client, s.timeout, s.phase, s.gap, s.delay)
+	return fmt.Sprintf("%s/%s/%s timeout=%v phase=%.2f gap=%v delay=%v prewait=%v", s.transport, s.kind, s.client, s.timeout, s.phase, s.gap, s.delay, s.preWait)
 }
 
 type v5Send struct {
@@ -64,6 +65,63 @@ type v5Res struct {
 	after    bool // a handler or the fallback ran after the abort was logged
 	sends    []v5Send
 	finished bool
+	stall    time.Duration // how long this process was not scheduled while the scenario ran (see v5Mon)
+}
+
+// scheduling monitor: a goroutine that sleeps 2 ms at a time and records every oversleep of more than 10 ms.
+// Lateness can be caused by a machine that does not schedule this process (other checks run in parallel);
+// a result measured while the process lost more than 100 ms that way says nothing about lateness.
+// (Earliness cannot be caused by load: those assertions are never suspended.)
+type v5Gap struct {
+	at  time.Time
+	gap time.Duration
+}
+
+var v5Mon struct {
+	mu   sync.Mutex
+	gaps []v5Gap
+	once sync.Once
+}
+
+func v5MonStart() {
+	v5Mon.once.Do(func() {
+		go func() {
+			for {
+				t := time.Now()
+				time.Sleep(2 * time.Millisecond)
+				if g := time.Since(t) - 2*time.Millisecond; g > 10*time.Millisecond {
+					v5Mon.mu.Lock()
+					v5Mon.gaps = append(v5Mon.gaps, v5Gap{t, g})
+					v5Mon.mu.Unlock()
+				}
+			}
+		}()
+	})
+}
+
+func v5Stall(from, to time.Time) (d time.Duration) {
+	v5Mon.mu.Lock()
+	defer v5Mon.mu.Unlock()
+	for _, g := range v5Mon.gaps {
+		if !g.at.Before(from.Add(-50*time.Millisecond)) && !g.at.After(to) {
+			d += g.gap
+		}
+	}
+	return d
+}
+
+// the oracle's verdict with lateness assertions suspended when the process was starved meanwhile
+func v5Judge(r v5Res) (fails map[string]string, inconclusive bool) {
+	fails = v5Oracle(r)
+	if r.stall > 100*time.Millisecond {
+		for k := range fails {
+			if strings.HasSuffix(k, ":aborted-late") || strings.HasSuffix(k, ":never-ended") {
+				delete(fails, k)
+				inconclusive = true
+			}
+		}
+	}
+	return
 }
 
 type v5Core struct {
@@ -205,6 +263,37 @@ func v5RunScenario(scn v5Scn) (res v5Res) {
 			return nil
 		})))
 		routes = RouteList{first, rt}
+	case "late-subroute":
+		// a matching phase that STARTS late: the outer route (no matchers) first blocks in a read until the client's
+		// second message at +delay (0.5 or 1.5 matching timeouts after the connection was wrapped), then enters a
+		// subroute (= Compile with the rest of the chain as next, the body of l4subroute.Handler.Handle) whose only
+		// route never decides: that nested matching must last its own timeout counted from ITS start
+		und := &Route{matcherSets: MatcherSets{MatcherSet{v5Need{k: 1 << 20}}}}
+		und.middleware = append(und.middleware, wrapHandler(NextHandlerFunc(func(cx *Connection, _ Handler) error {
+			mu.Lock()
+			res.class = "ran"
+			mu.Unlock()
+			return nil
+		})))
+		sub := RouteList{und}
+		first := &Route{}
+		first.middleware = append(first.middleware, wrapHandler(NextHandlerFunc(func(cx *Connection, nx Handler) error {
+			buf := make([]byte, 2)
+			if _, err := io.ReadFull(cx, buf); err != nil {
+				mu.Lock()
+				res.hread = "fail"
+				mu.Unlock()
+				return err
+			}
+			mu.Lock()
+			res.hread = "ok"
+			res.hreadAt = time.Since(startT)
+			mu.Unlock()
+			return nx.Handle(cx)
+		})), wrapHandler(NextHandlerFunc(func(cx *Connection, nx Handler) error {
+			return sub.Compile(logger, scn.timeout, nx).Handle(cx)
+		})))
+		routes = RouteList{first}
 	case "nonterm-read-undecided":
 		// a route without matchers whose NON-TERMINAL handler reads two bytes from the connection: the first is
 		// there, for the second it blocks in the connection's Read until the client sends it (on UDP this goes
@@ -264,6 +353,20 @@ func v5RunScenario(scn v5Scn) (res v5Res) {
 		return err
 	})}
 
+	// what Server.handle does, with a pause between WrapConnection and the compiled route (preWait == 0: the real one)
+	handle := func(conn net.Conn) {
+		if scn.preWait == 0 {
+			s.handle(conn)
+			return
+		}
+		defer func() { _ = conn.Close() }()
+		buf := bufPool.Get().([]byte)
+		buf = buf[:0]
+		defer bufPool.Put(buf)
+		cx := WrapConnection(conn, buf, s.logger)
+		time.Sleep(scn.preWait)
+		_ = s.compiledRoute.Handle(cx)
+	}
 	// transports: send(b) delivers bytes to the server side; serve() runs Server.handle to completion
 	var send func(b []byte) error
 	var serve func()
@@ -273,7 +376,7 @@ func v5RunScenario(scn v5Scn) (res v5Res) {
 	case "pipe":
 		c1, c2 := net.Pipe()
 		send = func(b []byte) error { _, err := c2.Write(b); return err }
-		serve = func() { s.handle(c1) }
+		serve = func() { handle(c1) }
 		cleanup = func() { c2.Close() }
 	case "tcp":
 		ln, err := net.Listen("tcp", "127.0.0.1:0")
@@ -291,7 +394,7 @@ func v5RunScenario(scn v5Scn) (res v5Res) {
 			return
 		}
 		send = func(b []byte) error { _, err := cc.Write(b); return err }
-		serve = func() { s.handle(sc) }
+		serve = func() { handle(sc) }
 		cleanup = func() { cc.Close(); ln.Close() }
 	case "udp":
 		pc := &packetConn{PacketConn: v5UDPSock, readCh: make(chan *packet, 128), addr: v5Addr(fmt.Sprintf("192.0.2.7:%d", 1000+scn.id)), closeCh: make(chan *packetConn, 16), closed: make(chan struct{})}
@@ -313,7 +416,7 @@ func v5RunScenario(scn v5Scn) (res v5Res) {
 			}
 			return nil
 		}
-		serve = func() { s.handle(pc) }
+		serve = func() { handle(pc) }
 		cleanup = func() {}
 	case "udp-real":
 		sock, err := net.ListenPacket("udp", "127.0.0.1:0")
@@ -359,7 +462,7 @@ func v5RunScenario(scn v5Scn) (res v5Res) {
 	doneCh := make(chan struct{})
 	go func() { serve(); close(doneCh) }()
 	// wait until the compiled route has been entered
-	for i := 0; i < 2000; i++ {
+	for i := 0; i < 2000+int(scn.preWait/(100*time.Microsecond)); i++ {
 		mu.Lock()
 		ok := !startT.IsZero()
 		mu.Unlock()
@@ -383,7 +486,7 @@ func v5RunScenario(scn v5Scn) (res v5Res) {
 		}
 		st := startT
 		switch scn.kind {
-		case "nonterm-read-undecided":
+		case "nonterm-read-undecided", "late-subroute":
 			if !udp {
 				record(1)
 				_ = send([]byte{'a'})
@@ -439,7 +542,7 @@ func v5RunScenario(scn v5Scn) (res v5Res) {
 	select {
 	case <-doneCh:
 		res.finished = true
-	case <-time.After(scn.timeout + lateAt + 3*time.Second):
+	case <-time.After(scn.timeout + lateAt + scn.delay + scn.preWait + 3*time.Second):
 	}
 	close(stop)
 	if scn.transport == "pipe" || scn.transport == "tcp" {
@@ -448,6 +551,7 @@ func v5RunScenario(scn v5Scn) (res v5Res) {
 	wg.Wait()
 	mu.Lock()
 	defer mu.Unlock()
+	res.stall = v5Stall(begin, time.Now())
 	res.start = startT.UnixNano()
 	core.mu.Lock()
 	if core.why != "" {
@@ -507,6 +611,22 @@ func v5Oracle(r v5Res) map[string]string {
 				f["C05:timing:"+tr+":aborted-late"] = fmt.Sprintf("matching ended after %v, timeout %v", r.elapsed, r.scn.timeout)
 			}
 		}
+	case "late-subroute":
+		if r.hread != "ok" {
+			f["C05:timing:"+tr+":nonterminal-handler-read-failed"] = "the handler before the subroute could not read the byte sent at +" + r.scn.delay.String()
+			break
+		}
+		if r.class != "timeout" {
+			f["C05:timing:"+tr+":undecided-not-ended-by-timeout"] = "nested route list ended with " + r.class
+		}
+		// the nested matching phase began when the handler before it returned
+		phase := r.elapsed - r.hreadAt
+		if phase < r.scn.timeout-v5Early {
+			f["C05:timing:"+tr+":aborted-early"] = fmt.Sprintf("matching of a route list entered %v after the connection was wrapped was abandoned after %v, its timeout is %v and its route was still undecided", r.hreadAt, phase, r.scn.timeout)
+		}
+		if phase > r.scn.timeout+v5Late {
+			f["C05:timing:"+tr+":aborted-late"] = fmt.Sprintf("nested matching ended after %v, timeout %v", phase, r.scn.timeout)
+		}
 	case "match-read":
 		if r.class != "ran" {
 			f["C05:timing:"+tr+":matching-route-did-not-run"] = "ended with " + r.class
@@ -559,7 +679,7 @@ func (r v5Res) coq() string {
 	for _, s := range r.sends {
 		as = append(as, fmt.Sprintf("(%d, %d)", s.at, s.n))
 	}
-	kind := map[string]string{"undecided": "KUndecided", "match-read": "KMatchRead", "empty-fb-read": "KEmptyFbRead", "nonterm-undecided": "KNonTermUndecided", "nonterm-read-undecided": "KNonTermReadUndecided"}[r.scn.kind]
+	kind := map[string]string{"undecided": "KUndecided", "match-read": "KMatchRead", "empty-fb-read": "KEmptyFbRead", "nonterm-undecided": "KNonTermUndecided", "nonterm-read-undecided": "KNonTermReadUndecided", "late-subroute": "KLateSubroute"}[r.scn.kind]
 	tr := map[string]string{"pipe": "TPipe", "tcp": "TTcp", "udp": "TUdp", "udp-real": "TUdp"}[r.scn.transport]
 	cls := map[string]string{"timeout": "OTimeout", "full": "OFull", "neterr": "ONetErr", "ran": "ORan", "fallback": "OFallback", "none": "ONone"}[r.class]
 	hr := map[string]string{"none": "RdNone", "ok": "RdOk", "fail": "RdFail"}[r.hread]
@@ -571,6 +691,7 @@ func TestVerifC05Timing(t *testing.T) {
 	out := vOpen()
 	defer out.Close()
 	var err error
+	v5MonStart()
 	v5UDPSock, err = net.ListenPacket("udp", "127.0.0.1:0")
 	if err != nil {
 		t.Fatal(err)
@@ -593,6 +714,14 @@ func TestVerifC05Timing(t *testing.T) {
 				}
 			}
 			add(v5Scn{transport: tr, timeout: to, phase: .5, client: "late", kind: "match-read"})
+			if to <= 300*time.Millisecond || vThorough() {
+				// matching phases that start late: 0.5 and 1.5 timeouts after the connection was wrapped
+				for _, f := range []float64{0.5, 1.5} {
+					dly := time.Duration(float64(to) * f)
+					add(v5Scn{transport: tr, timeout: to, phase: .5, client: "silent", kind: "late-subroute", delay: dly})
+					add(v5Scn{transport: tr, timeout: to, phase: .5, client: "silent", kind: "undecided", preWait: dly})
+				}
+			}
 			if to >= 300*time.Millisecond {
 				// ... and the non-terminal handler blocks in a read until +60 ms before passing the connection on
 				add(v5Scn{transport: tr, timeout: to, phase: .5, client: "silent", kind: "nonterm-read-undecided", delay: 60 * time.Millisecond})
@@ -638,52 +767,69 @@ func TestVerifC05Timing(t *testing.T) {
 		return res
 	}
 	results := run(scns)
-	// retry the scenarios that failed the oracle once, a few at a time, before reporting them
-	var retry []int
-	for i, r := range results {
-		if len(v5Oracle(r)) > 0 {
-			retry = append(retry, i)
+	// scenarios that failed the oracle, or whose measurement is inconclusive because the process was starved,
+	// are run again (twice at most), a few at a time, before anything is reported
+	bad := func(r v5Res) int {
+		f, inc := v5Judge(r)
+		n := len(f)
+		if inc {
+			n++
 		}
+		return n
 	}
-	for len(retry) > 0 {
-		n := len(retry)
-		if n > 12 {
-			n = 12
-		}
-		batch := make([]v5Scn, n)
-		for j := 0; j < n; j++ {
-			batch[j] = scns[retry[j]]
-		}
-		rr := run(batch)
-		for j := 0; j < n; j++ {
-			if len(v5Oracle(rr[j])) == 0 || len(v5Oracle(rr[j])) <= len(v5Oracle(results[retry[j]])) {
-				results[retry[j]] = rr[j]
+	for round := 0; round < 2; round++ {
+		var retry []int
+		for i, r := range results {
+			if bad(r) > 0 {
+				retry = append(retry, i)
 			}
 		}
-		retry = retry[n:]
+		for len(retry) > 0 {
+			n := len(retry)
+			if n > 12 {
+				n = 12
+			}
+			batch := make([]v5Scn, n)
+			for j := 0; j < n; j++ {
+				batch[j] = scns[retry[j]]
+			}
+			rr := run(batch)
+			for j := 0; j < n; j++ {
+				if bad(rr[j]) <= bad(results[retry[j]]) {
+					results[retry[j]] = rr[j]
+				}
+			}
+			retry = retry[n:]
+		}
 	}
 	sort.Slice(results, func(i, j int) bool { return results[i].scn.id < results[j].scn.id })
 	nfail := map[string]int{}
+	suspended := 0
 	for _, r := range results {
 		sample := map[string]any{"scenario": r.scn.String(), "class": r.class, "elapsed_ms": float64(r.elapsed) / 1e6, "bytes": r.bytes,
 			"handler_read": r.hread, "start_phase_ms": float64(r.start%1e9) / 1e6, "sends": len(r.sends)}
-		for k, d := range v5Oracle(r) {
+		fails, inconclusive := v5Judge(r)
+		for k, d := range fails {
 			nfail[k]++
 			if nfail[k] <= 4 {
 				out.Fail(k, d, sample)
 			}
+		}
+		if inconclusive {
+			suspended++
 		}
 		if !r.finished {
 			continue
 		}
 		nt := r.scn.client != "silent" || r.scn.kind != "undecided"
 		m := map[string]any{"t": "case", "coq": r.coq(), "cls": r.scn.transport + "/" + r.scn.kind + "/" + r.scn.client, "nt": nt, "sample": sample}
-		if v5Sensitive(r) {
+		if v5Sensitive(r) || r.stall > 100*time.Millisecond {
 			m["nocorr"] = true
 		}
 		out.emit(m)
 	}
 	out.Stat("scenarios", len(results))
+	out.Stat("lateness_assertions_suspended_because_process_was_starved", suspended)
 	for k, c := range nfail {
 		out.Stat("fail."+k, c)
 	}
